@@ -69,6 +69,11 @@ C_SetLimit(r, k, field, value) == [r EXCEPT !.vehicles = [v \in 1..Len(@) |->
 LimitDistance_(r, k) == C_SetLimit(r, k, "maxDist", r.tours[k].stat.distance - 2)
 LimitDuration_(r, k) == C_SetLimit(r, k, "maxDur", r.tours[k].stat.duration - 2)
 LimitTourSize_(r, k) == C_SetLimit(r, k, "tourSize", Len(V_Inner(r.tours[k])) - 1)
+\* limit breach, recharge stations: the distance budget of the tour's shift is set just below the longest stretch the tour drives
+\* between two recharge stops (or start / end)
+C_MaxSpan(r, k) == Max(V_Range(V_RechargeSpans(r, r.tours[k])) \cup {0})
+LimitRecharge_(r, k) == [r EXCEPT !.vehicles = [v \in 1..Len(@) |->
+                         IF @[v].type = r.tours[k].type THEN [@[v] EXCEPT !.shifts[r.tours[k].shift].recharge.max = C_MaxSpan(r, k) - 2] ELSE @[v]]]
 \* broken relation: a relation is added that pins a job of tour k to the vehicle of another tour k2
 BreakRelation(r, k, s, a, k2) ==
   [r EXCEPT !.relations = Append(@, [type |-> "any", vehicle |-> r.tours[k2].vehicle, shift |-> r.tours[k2].shift,
@@ -99,6 +104,8 @@ Breaches(r) ==
   \cup { [class |-> "LimitDistance", k |-> k, s |-> 0, a |-> 0, k2 |-> 0] : k \in { k \in C_Tours(r) : r.tours[k].stat.distance > 2 /\ ~LimitDistance(LimitDistance_(r, k)) } }
   \cup { [class |-> "LimitDuration", k |-> k, s |-> 0, a |-> 0, k2 |-> 0] : k \in { k \in C_Tours(r) : r.tours[k].stat.duration > 2 /\ ~LimitDuration(LimitDuration_(r, k)) } }
   \cup { [class |-> "LimitTourSize", k |-> k, s |-> 0, a |-> 0, k2 |-> 0] : k \in { k \in C_Tours(r) : Len(V_Inner(r.tours[k])) >= 1 /\ ~LimitTourSize(LimitTourSize_(r, k)) } }
+  \cup { [class |-> "LimitRecharge", k |-> k, s |-> 0, a |-> 0, k2 |-> 0] :
+            k \in { k \in C_Tours(r) : V_Shift(r, r.tours[k]).recharge.max # -1 /\ C_MaxSpan(r, k) > 2 /\ ~RechargeDistance(LimitRecharge_(r, k)) } }
   \cup { [class |-> "BreakRelation", k |-> x[1], s |-> x[2], a |-> x[3], k2 |-> k2] : x \in C_JobSites(r),
             k2 \in { k2 \in C_Tours(r) : \E x \in C_JobSites(r) : k2 # x[1] /\ <<r.tours[k2].vehicle, r.tours[k2].shift>> # <<r.tours[x[1]].vehicle, r.tours[x[1]].shift>> } }
   \cup { [class |-> "BreakRelationFirstShift", k |-> x[1], s |-> x[2], a |-> x[3], k2 |-> 0] :
